@@ -106,6 +106,9 @@ mutual
     | .bounded b _ _ _ _, h, v, hc => by
       simp only [conforms, Bool.and_eq_true] at hc
       exact numeric_conforms E b (by simpa [Ty.numeric] using h) v hc.1.1.1.1
+    | .refined b _, h, v, hc => by
+      simp only [conforms, Bool.and_eq_true] at hc
+      exact numeric_conforms E b (by simpa [Ty.numeric] using h) v hc.1
     | .union ts, h, v, hc =>
       numerics_conformsAny E ts (by simpa [Ty.numeric] using h) v (by simpa [conforms] using hc)
     | .any, h, _, _ => by simp [Ty.numeric] at h
@@ -150,6 +153,7 @@ mutual
     | .type_ _, _, d => by simp [checkSubclass, subclassOf]
     | .bounded _ _ _ _ _, _, d => by simp [checkSubclass, subclassOf]
     | .validated _, _, d => by simp [checkSubclass, subclassOf]
+    | .refined _ _, _, d => by simp [checkSubclass, subclassOf]
     | .literal _, h, _ => by simp [Ty.classArg] at h
     | .union ts, h, d => by
       simp only [checkSubclass, subclassOf]
@@ -251,6 +255,10 @@ mutual
       · simp
       · obtain ⟨x, hx⟩ := numeric_conforms E b h.2 v hc
         simp [boundsCheck_ok hx]
+    | .refined b p, h, v => by
+      have ih := checkType_ok E b (by simpa [Ty.wf] using h) v
+      simp only [checkType, conforms, ih]
+      cases conforms E b v <;> simp
   theorem checkAny_ok (E : Env) :
       ∀ (ts : Tys), ts.wf = true → ∀ v, checkAny E ts v = .ok (conformsAny E ts v)
     | .nil, _, v => by simp [checkAny, conformsAny]
@@ -270,5 +278,42 @@ mutual
       have := checkSlots_ok E ts h.2 xs (by simpa [Vals.length, Tys.length] using hl)
       cases conforms E t x <;> simp [this]
 end
+
+/-! ## generations -/
+
+/-- one more generation adds exactly its own predicate to the conjunction -/
+theorem conforms_apply (E : Env) (g : Gen) (t : Ty) (v : Val) :
+    conforms E (g.apply t) v = (conforms E t v && g.holds E v) := by
+  cases g <;> simp [Gen.apply, Gen.holds, conforms, Bool.and_assoc]
+
+/-- SPEC of a chain: the base and every generation's predicate -/
+theorem conforms_chain (E : Env) (base : Ty) (v : Val) :
+    ∀ gens : List Gen, conforms E (Ty.chain base gens) v = (conforms E base v && gens.all (Gen.holds E v))
+  | [] => by simp [Ty.chain]
+  | g :: gs => by
+    simp only [Ty.chain, conforms_apply, conforms_chain E base v gs, List.all_cons]
+    cases conforms E base v <;> cases g.holds E v <;> simp
+
+theorem numeric_apply (g : Gen) (t : Ty) : (g.apply t).numeric = t.numeric := by
+  cases g <;> simp [Gen.apply, Ty.numeric]
+
+theorem numeric_chain (base : Ty) : ∀ gens : List Gen, (Ty.chain base gens).numeric = base.numeric
+  | [] => rfl
+  | g :: gs => by simp [Ty.chain, numeric_apply, numeric_chain base gs]
+
+/-- any number of generations over a well-formed numeric base is well-formed -/
+theorem wf_chain_of_numeric (base : Ty) (hwf : base.wf = true) (hn : base.numeric = true) :
+    ∀ gens : List Gen, (Ty.chain base gens).wf = true
+  | [] => hwf
+  | g :: gs => by
+    have ih := wf_chain_of_numeric base hwf hn gs
+    have hnum := numeric_chain base gs
+    cases g <;> simp [Ty.chain, Gen.apply, Ty.wf, ih, hnum, hn]
+
+theorem holds_bnd_iff (E : Env) {v : Val} {x : Int} (hx : num v = some x) (ge gt le lt : Option Int) :
+    (Gen.bnd ge gt le lt).holds E v = true ↔
+      (∀ g, ge = some g → g ≤ x) ∧ (∀ g, gt = some g → g < x) ∧
+      (∀ g, le = some g → x ≤ g) ∧ (∀ g, lt = some g → x < g) := by
+  cases ge <;> cases gt <;> cases le <;> cases lt <;> simp [Gen.holds, boundOk, hx, and_assoc]
 
 end SpecVerif.C15
